@@ -37,12 +37,19 @@ std::vector<std::function<void()>> & registrars()
 namespace {
 using namespace c09;
 
-// ------------------------------------------------------------------ calibrated constants (see report / evidence "notes")
-// Rounding error of evaluating f, in units of eps * (forward-error scale of f): the largest value ever needed to
-// explain an increase of the recomputed cost between two consecutive callbacks on the pinned tree was KF_OBSERVED.
-constexpr double KF = 64;
-// arguments on return vs last callback, in units of eps (relative, per coefficient).
-constexpr double KFINAL = 64;
+// ------------------------------------------------------------------ calibrated constants
+// The statement allows a cost increase "up to the rounding error of evaluating f" and gives no number. The error
+// measure of the two cost judgements is therefore the perturbation |df| of |f| that is needed to explain the observed
+// increase, in units of eps * sqrt(m) * fscale (m residuals, fscale = magnitude of the terms summed inside f), after
+// discounting 4 eps |f|^2 for the norm computations. Calibration (DESIGN section 7: max(100 x worst observed, 64)) on
+// the tree on which the check runs clean (pinned tree + repair of the two C09 defects, thorough tier, all reachable
+// strategy states): worst per step 2.75, worst start-to-return 17.3 per callback (Numerical mode: dr_numerical
+// leaves the arguments a few ulps off after every iteration, the C08 restore defect; 0.3 / 0.3 in Analytic mode).
+constexpr double KF_STEP = 300;
+constexpr double KF_RET  = 2000;
+// arguments on return vs last callback, relative per coefficient, in units of eps. Exactly 0 in Analytic mode;
+// Numerical mode: worst observed 28.5 eps (same C08 restore drift, accumulates over rejected iterations).
+constexpr double KFINAL = 3000;
 
 void build_menu()
 {
@@ -182,14 +189,14 @@ RunOut judge_case(mc::Case & c, const PSM & q, int mi, int pt, int ft, const Nod
     kworst = std::max(kworst, kn);
   }
   if (beyond4) c.outcome("a step's cost increase exceeded 4eps|f|^2 (explained by f rounding)");
-  c.judge("callback cost non-increasing: |df| needed / (eps*sqrt(m)*fscale)", kworst, KF);
+  c.judge("callback cost non-increasing: |df| needed / (eps*sqrt(m)*fscale)", kworst, KF_STEP);
   const double fd = A.tr.empty() ? INFINITY : flat_diff(A.fin, A.tr.back());
   if (fd != 0) c.outcome("arguments on return differ from last callback by rounding");
   c.judge("arguments on return = last callback (in eps)", fd / EPS, KFINAL);
   {
     // returned point not worse than the start: allow one f-rounding per callback
     double kn = A.cost.empty() ? INFINITY : needed_k(A.cost[0], A.cost_fin, rt * std::max(A.scale[0], A.scale_fin));
-    c.judge("returned point not worse than start: |df| needed / (eps*sqrt(m)*fscale) per callback", kn / double(std::max<size_t>(1, A.tr.size())), KF);
+    c.judge("returned point not worse than start: |df| needed / (eps*sqrt(m)*fscale) per callback", kn / double(std::max<size_t>(1, A.tr.size())), KF_RET);
   }
   // ---- iteration bound and status contract
   c.require("iter <= max_iter", A.iter <= m);
@@ -209,6 +216,9 @@ RunOut judge_case(mc::Case & c, const PSM & q, int mi, int pt, int ft, const Nod
     if (P.wellcond && P.basin[size_t(q.start)] && st.conv) {
       c.outcome("convergence clause judged");
       c.judge("Ftol/Ptol result within 1e-3 of the closed-form minimiser", A.dist_min, 1e-3);
+      if (!(A.dist_min <= 1e-3))
+        c.outcome(st.s.delta < 1e-6 ? "convergence violated: trust region < 1e-6" : (st.s.delta < 1 ? "convergence violated: trust region in [1e-6,1)"
+                                    : (st.s.delta < 1000 ? "convergence violated: trust region in [1,1000)" : "convergence violated: trust region >= 1000")));
     } else {
       c.outcome(!P.wellcond ? "convergence clause n/a: no unique well-conditioned closed-form minimiser"
                             : (!P.basin[size_t(q.start)] ? "convergence clause n/a: start outside the basin" : "convergence clause n/a: strategy state not left by a converged solve"));
@@ -279,13 +289,13 @@ MC_SUBCHECK(a_fresh)
 MC_SUBCHECK(b_history)
 {
   build_menu();
-  // ---- BFS over solve histories. Transitions = history menu: (problem, reduced start menu, Numerical | Analytic) x
-  //      max_iter in {1,2,5,1000} x (ptol,ftol) in {(1e-12,1e-12),(1e-6,1e-6),(1e-2,1e-2)}; states merged by exact bytes.
-  const auto hmenu   = psm_menu(1);
-  const int HMI[4]   = {1, 2, 3, 4};
-  const int HTOL[3]  = {0, 1, 2};
-  const size_t nh    = hmenu.size() * 4 * 3;
-  int maxdepth       = mc::thorough() ? 2 : 1;
+  // ---- BFS over solve histories (states merged by the exact bytes of the strategy's private fields).
+  //      A transition is one prefix solve: (problem, history start menu, Numerical | Analytic) x max_iter in {1,2,5,1000}
+  //      x ptol=ftol in {1e-12,1e-6,1e-2}. First prefix solve: every problem of the tier; second prefix solve
+  //      (thorough only): the representative problems (otherwise the number of bit-distinct Ceres radii explodes).
+  const int HMI[4]  = {1, 2, 3, 4};
+  const int HTOL[3] = {0, 1, 2};
+  int maxdepth      = mc::thorough() ? 2 : 1;
   if (const char * e = getenv("C09_DEPTH")) maxdepth = atoi(e);
   std::map<StratState, Node> seen;
   std::vector<std::vector<StratState>> frontier(1);
@@ -302,13 +312,17 @@ MC_SUBCHECK(b_history)
     StratState e;
     bool conv;
   };
-  auto hspec = [&](size_t j, PSM & q, int & mi, int & tl) {
-    mc::Radix r(j);
-    tl = HTOL[r.next(3)];
-    mi = HMI[r.next(4)];
-    q  = hmenu[r.next(hmenu.size())];
-  };
+  std::string hsizes;
   for (int d = 0; d < maxdepth; ++d) {
+    const auto hmenu = psm_menu(d == 0 ? 1 : 2);
+    const size_t nh  = hmenu.size() * 4 * 3;
+    hsizes += (d ? ", " : "") + std::to_string(nh);
+    auto hspec = [&](size_t j, PSM & q, int & mi, int & tl) {
+      mc::Radix r(j);
+      tl = HTOL[r.next(3)];
+      mi = HMI[r.next(4)];
+      q  = hmenu[r.next(hmenu.size())];
+    };
     const std::vector<StratState> fr = frontier[size_t(d)];  // copy: `frontier` grows below
     std::vector<Res> res(fr.size() * nh);
     parallel_for(res.size(), [&](size_t i) {
@@ -343,7 +357,7 @@ MC_SUBCHECK(b_history)
   {
     std::string ex = "\"frontier_sizes\": [";
     for (size_t d = 0; d < frontier.size(); ++d) ex += (d ? ", " : "") + std::to_string(frontier[d].size());
-    ex += "], \"history_menu\": " + std::to_string(nh);
+    ex += "], \"history_menu_per_depth\": [" + hsizes + "]";
     size_t nconv = 0;
     double dmin = INFINITY, dmax = 0;
     for (auto & kv : seen) {
@@ -360,10 +374,11 @@ MC_SUBCHECK(b_history)
       }
     mc::report_space("C09/bfs-strategy-states", seen.size(), transitions, transitions, samples, true, ex);
   }
-  // ---- judged spaces: every state of depth d x judged menu.
-  //      depth 1: history start menu x {Numerical, Analytic} x all 45 option triples;
-  //      depth 2: representative problems x history start menu x {Numerical, Analytic} x max_iter in {2,1000} x ptol=ftol in {1e-12,1e-2}
   if (getenv("C09_BFSONLY")) return;
+  // ---- judged spaces: every state of depth d x judged menu (history start menu, Numerical | Analytic).
+  //      thorough depth 1: all problems x all 45 (max_iter, ptol, ftol) triples
+  //      quick    depth 1: quick-tier problems x max_iter in {0,1,2,5,1000} x ptol=ftol in {1e-12,1e-6,1e-2}
+  //      thorough depth 2: representative problems x max_iter in {2,1000} x ptol=ftol in {1e-12,1e-2}
   for (int d = 1; d <= maxdepth; ++d)
     for (int kind = 0; kind < 2; ++kind) {
       const auto menu = psm_menu(d == 1 ? 1 : 2);
@@ -371,18 +386,21 @@ MC_SUBCHECK(b_history)
       for (auto & s : frontier[size_t(d)])
         if (s.kind == kind) nodes.push_back(seen[s]);
       if (nodes.empty()) continue;
-      const bool full = d == 1;
+      const int optmode = d >= 2 ? 2 : (mc::thorough() ? 0 : 1);
+      const size_t nopt = optmode == 0 ? 45 : (optmode == 1 ? 15 : 4);
       for (auto & fam : families()) {
         const auto fm = filter_family(menu, fam);
         if (fm.empty()) continue;
-        const size_t per = fm.size() * (full ? 45 : 2 * 2);
-        mc::explore(mc::fmt("C09/history/depth%d/%s/%s", d, KIND[kind], fam.c_str()), nodes.size() * per, [&](mc::Case & c) {
+        mc::explore(mc::fmt("C09/history/depth%d/%s/%s", d, KIND[kind], fam.c_str()), nodes.size() * fm.size() * nopt, [&](mc::Case & c) {
           mc::Radix r(c.idx);
           int ft, pt, mi;
-          if (full) {
+          if (optmode == 0) {
             ft = int(r.next(3));
             pt = int(r.next(3));
             mi = int(r.next(5));
+          } else if (optmode == 1) {
+            ft = pt = int(r.next(3));
+            mi      = int(r.next(5));
           } else {
             ft = pt = r.next(2) ? 2 : 0;
             mi      = r.next(2) ? 4 : 2;
